@@ -34,7 +34,10 @@ def diff_keys(a, b, prefix=None):
     return ks
 
 
-CONFIGS = ['sir_tabdeaths', 'sis_tx2', 'sir_userdists', 'sir_vx_all_or_nothing', 'syphilis_mf', 'sir_mf', 'sis_static', 'sir_er_deaths', 'sir_preg', 'sis_pool', 'hiv_mf_vx', 'measles_day', 'sir_births', 'sir_random_odd', 'ncd', 'sir_random_even']
+CONFIGS = ['sir_tabdeaths', 'sis_tx2', 'sir_userdists', 'sir_vx_all_or_nothing', 'syphilis_mf', 'sir_dx_triage', 'sis_pools_agegroup', 'sir_mf', 'sis_static', 'sir_er_deaths', 'sir_preg', 'sis_pool', 'hiv_mf_vx', 'measles_day', 'sir_births', 'sir_random_odd', 'ncd', 'sir_random_even']
+
+def _all_active(sim): return sim.people.auids
+
 
 def make_sim(kind, seed, n=200, dur=8, extra=None, variant=0):
     """the configuration grid (extra: dict of additional module lists merged in)"""
@@ -64,6 +67,17 @@ def make_sim(kind, seed, n=200, dur=8, extra=None, variant=0):
                       connectors=L('connectors', []), analyzers=L('analyzers', []), **kw)
     if kind == 'syphilis_mf':
         return ss.Sim(diseases=L('diseases', [ss.Syphilis(init_prev=0.2, beta={'mf': [0.5, 0.3]})]), networks=L('networks', [ss.MFNet()]), interventions=L('interventions', []), connectors=L('connectors', []), analyzers=L('analyzers', []), **kw)
+    if kind == 'sir_dx_triage':      # a diagnostic product with several (disease, state) rows, delivered by triage; positives are cured
+        import pandas as pd
+        from harness.probes import CurePositives
+        rows = [('sir', 'susceptible', 'positive', 0.10), ('sir', 'susceptible', 'negative', 0.90), ('sir', 'infected', 'positive', 0.80), ('sir', 'infected', 'negative', 0.20), ('sir', 'recovered', 'positive', 0.30), ('sir', 'recovered', 'negative', 0.70)]
+        dx = ss.Dx(pd.DataFrame(rows, columns=['disease', 'state', 'result', 'probability']), hierarchy=['positive', 'negative'])
+        tri = ss.routine_triage(product=dx, prob=0.6 + 0.05 * variant, eligibility=_all_active, name='tri')
+        return ss.Sim(diseases=L('diseases', [ss.SIR(beta=0.08, init_prev=0.1, p_death=0)]), networks=L('networks', [ss.RandomNet(n_contacts=4)]), interventions=L('interventions', [tri, CurePositives(name='cure')]),
+                      connectors=L('connectors', []), analyzers=L('analyzers', []), **kw)
+    if kind == 'sis_pools_agegroup':      # mixing pools between age groups
+        mps = ss.MixingPools(beta=ss.beta(0.3), contacts=np.array([[1.0, 2.0], [2.0, 1.0]]), src={'a': ss.AgeGroup(0, 30), 'b': ss.AgeGroup(30, None)}, dst={'a': ss.AgeGroup(0, 30), 'b': ss.AgeGroup(30, None)})
+        return ss.Sim(diseases=L('diseases', [ss.SIS(beta=0.0, init_prev=0.1)]), networks=L('networks', [mps]), interventions=L('interventions', []), connectors=L('connectors', []), analyzers=L('analyzers', []), **kw)
     if kind == 'sir_mf': return ss.Sim(diseases=L('diseases', [ss.SIR(beta={'mf': [0.3, 0.2]}, init_prev=0.1)]), networks=L('networks', [ss.MFNet()]), connectors=L('connectors', []), analyzers=L('analyzers', []), interventions=L('interventions', []), **kw)
     if kind == 'sis_static': return ss.Sim(diseases=L('diseases', [ss.SIS(beta=0.1)]), networks=L('networks', [ss.StaticNet()]), connectors=L('connectors', []), analyzers=L('analyzers', []), interventions=L('interventions', []), **kw)
     if kind == 'sir_er_deaths': return ss.Sim(diseases=L('diseases', [ss.SIR(beta=0.2, p_death=0.2)]), networks=L('networks', [ss.ErdosRenyiNet()]), demographics=[ss.Deaths(death_rate=30)], connectors=L('connectors', []), analyzers=L('analyzers', []), interventions=L('interventions', []), **kw)
